@@ -28,6 +28,7 @@ func (t *translator) translateFn(fi *fnInfo, emitDep func(*fnInfo)) {
 		c.fail(fi.decl, "%v", err)
 	}
 	c.retT = tupleType(comps)
+	c.computeNatVars()
 	c.aliasCheck()
 	var hdr strings.Builder
 	fmt.Fprintf(&hdr, "/-- `%s` (%s) -/\ndef %s", goDisplayName(fi), t.pos(fi.decl), fi.leanName)
@@ -146,7 +147,7 @@ func (c *fctx) aliasCheck() {
 				for _, r := range s.Results {
 					if id, ok := r.(*ast.Ident); ok {
 						if v, ok := info.Uses[id].(*types.Var); ok && isLocalPtr(v) && len(escapes[v]) > 0 {
-							c.fail(s, "returns pointer %s that was also stored (the caller's later writes through it would be lost in the value model)", v.Name())
+							c.fi.notes = append(c.fi.notes, fmt.Sprintf("returns pointer %s that it also stored: the result is a copy, later writes through it by the caller are not part of this function", v.Name()))
 						}
 					}
 				}
@@ -349,7 +350,7 @@ func (c *fctx) jpWrap(scope ast.Node, restCode string, arms func(callK string) s
 	jp := c.fresh("jp")
 	var params, args []string
 	for _, v := range vars {
-		params = append(params, fmt.Sprintf("(%s : %s)", c.name(v), c.ltype(scope, v.Type())))
+		params = append(params, fmt.Sprintf("(%s : %s)", c.name(v), c.vtype(scope, v)))
 		args = append(args, c.name(v))
 	}
 	if len(vars) == 0 {
@@ -691,7 +692,7 @@ func (c *fctx) loopName() string {
 
 func (c *fctx) varDecls(n ast.Node, vs []*types.Var) (params, names, tys []string) {
 	for _, v := range vs {
-		lt := c.ltype(n, v.Type())
+		lt := c.vtype(n, v)
 		params = append(params, fmt.Sprintf("(%s : %s)", c.name(v), lt))
 		names = append(names, c.name(v))
 		tys = append(tys, lt)
@@ -810,6 +811,11 @@ func (c *fctx) fuelFor(s *ast.ForStmt) string {
 				}
 			}
 			if up && (op == token.LSS || op == token.LEQ) {
+				if c.isNatExpr(x) && c.isNatExpr(y) {
+					ny, _ := c.natTerm(y)
+					nx, _ := c.natTerm(x)
+					return "(" + ny + " - " + nx + ") + 2"
+				}
 				return "((" + c.toInt(y) + ") - (" + c.toInt(x) + ")).toNat + 2"
 			}
 			if down && (op == token.GTR || op == token.GEQ || op == token.NEQ) {
@@ -857,7 +863,12 @@ func (c *fctx) rangeStmt(s *ast.RangeStmt, rest []ast.Stmt, k string) string {
 		elem = c.name(c.info.Defs[id])
 	}
 	if id, ok := s.Key.(*ast.Ident); ok && id.Name != "_" {
-		binders = fmt.Sprintf("let %s : Int := idx_;\n", c.name(c.info.Defs[id]))
+		kv := c.info.Defs[id].(*types.Var)
+		if c.natVars[kv] {
+			binders = fmt.Sprintf("let %s : Nat := idx_;\n", c.name(kv))
+		} else {
+			binders = fmt.Sprintf("let %s : Int := (idx_ : Int);\n", c.name(kv))
+		}
 	}
 	recCall := name + " rest_ (idx_ + 1) " + strings.Join(append(append([]string{}, enames...), snames...), " ")
 	exit := "Res.ok " + tupleVal(snames)
@@ -871,7 +882,7 @@ func (c *fctx) rangeStmt(s *ast.RangeStmt, rest []ast.Stmt, k string) string {
 	c.inSwitch = savedSwitch
 	c.retStack = c.retStack[:len(c.retStack)-1]
 	c.loops = c.loops[:len(c.loops)-1]
-	def := fmt.Sprintf("/-- range loop at %s -/\ndef %s (xs_ : List %s) (idx_ : Int) %s : Res (%s) :=\n  match xs_ with\n  | [] => %s\n  | %s :: rest_ =>\n%s\n",
+	def := fmt.Sprintf("/-- range loop at %s -/\ndef %s (xs_ : List %s) (idx_ : Nat) %s : Res (%s) :=\n  match xs_ with\n  | [] => %s\n  | %s :: rest_ =>\n%s\n",
 		c.t.pos(s), name, et, strings.Join(append(append([]string{}, eparams...), sparams...), " "), retT, exit, elem,
 		indent(binders+body, "    "))
 	c.fi.aux = append(c.fi.aux, def)
